@@ -327,11 +327,16 @@ func Last[T any](ctx context.Context, s Stream[T], n int) ([]T, error) {
 		} else if err != nil {
 			return nil, err
 		}
-		buf[i%n] = item
+		if n > 0 {
+			buf[i%n] = item
+		}
 		i++
 	}
 	if i < n {
 		return buf[:i], nil
+	}
+	if n == 0 {
+		return buf, nil
 	}
 	out := make([]T, n)
 	idx := i % n
